@@ -3326,6 +3326,35 @@ impl<C: BorrowMut<rusqlite::Connection>, P: consensus::Parameters, CL, R> Wallet
             .map_err(|e| ShardTreeError::Storage(commitment_tree::Error::Query(e)))?;
         Ok(Some(result))
     }
+
+    fn remove_retained_checkpoints_below(
+        &mut self,
+        max_height: BlockHeight,
+    ) -> Result<(), ShardTreeError<Self::Error>> {
+        // The trait's default calls `with_*_tree_mut` once per pool, and each of those opens and
+        // commits its own transaction on a connection-owning wallet. Run the default inside one
+        // transaction instead, so the retention is released in every tree or in none.
+        let tx = self
+            .conn
+            .borrow_mut()
+            .transaction()
+            .map_err(|e| ShardTreeError::Storage(commitment_tree::Error::Query(e)))?;
+        {
+            let mut wdb = WalletDb {
+                conn: SqlTransaction(&tx),
+                params: &self.params,
+                clock: &self.clock,
+                rng: &mut self.rng,
+                anchor_retention_interval: self.anchor_retention_interval,
+                #[cfg(feature = "transparent-inputs")]
+                gap_limits: self.gap_limits,
+            };
+            wdb.remove_retained_checkpoints_below(max_height)?;
+        }
+        tx.commit()
+            .map_err(|e| ShardTreeError::Storage(commitment_tree::Error::Query(e)))?;
+        Ok(())
+    }
 }
 
 impl<P: consensus::Parameters, CL, R> WalletCommitmentTrees
